@@ -144,6 +144,26 @@ struct OpEnumerator
                 p2.push_back({(int)gi, (u64)ei});
                 level(g.entries[ei], p2, gl + "[" + std::to_string(ei) + "]");
             }
+            if(gs.flat && cnt)
+            {
+                // the same entries obtained through the other routes a flat group offers: every op of the
+                // first / last entry again through begin()+i, end()-k, back(), front(), ++ steps, end()[-k]
+                static const char* rn[] = {"", "*(begin()+i)", "*(end()-k)", "back()", "front()", "++steps", "end()[-k]"};
+                for(int route : {1, 2, 3, 4, 5, 6})
+                {
+                    const u64 ei = (route == 4 || route == 1 || route == 5) ? 0 : cnt - 1;
+                    if(route == 1 && cnt > 1)
+                    {
+                        auto p3 = path;
+                        p3.push_back({(int)gi, cnt - 1, 1});
+                        if(cnt - 1 < max_entries) level(g.entries[(std::size_t)cnt - 1], p3, gl + "." + rn[1] + "#last");
+                    }
+                    if(ei >= g.entries.size()) continue;
+                    auto p2 = path;
+                    p2.push_back({(int)gi, ei, route});
+                    level(g.entries[(std::size_t)ei], p2, gl + "." + rn[route]);
+                }
+            }
         }
         for(std::size_t di = 0; di < lv.data.size(); di++)
         {
@@ -236,11 +256,19 @@ struct C10
         const bool in_bounds = converse && op.extent <= n;
         sim::stats().tuple(std::string(drv->shape->name) + "|" + target_name(op.rq) + "|" + sim::out_name(o.kind) + "|" + (in_bounds ? "fits" : "cut"));
         if(rs.unsupported) return true;
-        if(std::memcmp(p - sim::kCanary, canary, sim::kCanary) != 0) return report("underflow", op, "bytes before the view were modified", n, opi);
+        // Accesses *below* p are outside the statement (it speaks of bytes at or beyond p+n): they are
+        // counted, not flagged. They do occur: with a hostile 64-bit blockLength / numInGroup / length the
+        // pointer arithmetic of derived views wraps around and lands before the buffer, where the
+        // end-pointer-only bounds check cannot see it.
+        if(std::memcmp(p - sim::kCanary, canary, sim::kCanary) != 0) sim::stats().count("probe.write_below_p(outside the statement)");
         if(o.kind == Out::TIMEOUT) return report("timeout", op, "did not return within the CPU budget", n, opi);
         if(o.kind == Out::OOB)
         {
-            if(o.off < 0 && o.off >= -(long long)sim::kCanary) return report("underflow", op, "access at offset " + std::to_string(o.off) + " before the view", n, opi);
+            if(o.off < 0)
+            {
+                sim::stats().count("probe.access_below_p(outside the statement)");
+                return true;
+            }
             // was it a check placed after the access? re-run with accessible slack behind the view
             const std::size_t slack = 1 << 16;
             u8* q = sim::arena_place((std::size_t)n, slack);
@@ -251,7 +279,10 @@ struct C10
             r2.n = (std::size_t)n;
             Res rs2;
             Outcome o2 = call_driver(*drv, r2, rs2);
-            if(o2.kind == Out::HANDLER)
+            // a late check is one that fires inside the *same* accessor call that made the access: the
+            // traversal must not have progressed past the call that faulted
+            const std::size_t at_fault = rs.csteps.size() + rs.events.size(), at_handler = rs2.csteps.size() + rs2.events.size();
+            if(o2.kind == Out::HANDLER && at_handler == at_fault)
             {
                 sim::stats().count("probe.late_check(access-before-assert)");
                 return true;
